@@ -509,9 +509,8 @@ func checkRangeSendAll(c *Ctx, rule string, fn *ssa.Function, isDelivery func(e 
 				if !(t.A[0].K == "binop" && t.A[0].S == "+" && t.A[0].A[0].K == "phi" && t.A[0].A[1].Key() == "1") {
 					okk, detail = false, "loop index does not advance by one"
 				}
-			} else {
-				okk, detail = false, "extra condition in distribution loop: "+lit.String()
 			}
+			// other conditions are fine as long as every path delivers once and continues
 		}
 		if !known {
 			okk, detail = false, "loop is not a range over the events parameter"
